@@ -77,6 +77,9 @@ def build_app():
             if beh == 'flaky':
                 # one route, several outcomes: decided by the URL value
                 how = kw.get('x')
+                if how.startswith('back-'):
+                    _clock['offset'] -= {'s': 5.0, 'h': 3600.0}[how[5]]      # the wall clock is set back while this request is being served
+                    how = how[7:]
                 if how.startswith('slow-'):
                     _clock['offset'] += {'s': 1.5, 'm': 75.0}[how[5]]      # this request takes seconds, or more than a minute
                     how = how[7:]
@@ -173,6 +176,9 @@ REQS = [
     ('200', 'GET', '/flaky/slow-s-fine', [('/flaky/<x>', '200')]), ('uncaught', 'GET', '/flaky/slow-s-exc-os', [('/flaky/<x>', 'OSError')]),
     ('uncaught', 'GET', '/flaky/slow-m-boom', [('/flaky/<x>', 'ValueError')]), ('raised-4xx', 'GET', '/flaky/slow-s-code-404', [('/flaky/<x>', '404')]),
     ('returned-4xx', 'GET', '/flaky/slow-m-teapot', [('/flaky/<x>', '418')]), ('uncaught', 'POST', '/flaky/slow-s-exc-lookup', [('/flaky/<x>', 'LookupError')]),
+    # the wall clock steps back while the request runs (an NTP correction, a resumed VM): the request reached its route all the same
+    ('200', 'GET', '/flaky/back-s-fine', [('/flaky/<x>', '200')]), ('raised-4xx', 'GET', '/flaky/back-h-deny', [('/flaky/<x>', '403')]),
+    ('uncaught', 'GET', '/flaky/back-s-exc-key', [('/flaky/<x>', 'KeyError')]), ('returned-4xx', 'POST', '/flaky/back-h-teapot', [('/flaky/<x>', '418')]),
     # status codes outside the registries
     ('200', 'GET', '/flaky/odd-resp-299', [('/flaky/<x>', '299')]), ('returned-4xx', 'GET', '/flaky/odd-resp-499', [('/flaky/<x>', '499')]),
     ('raised-4xx', 'GET', '/flaky/odd-raise-420', [('/flaky/<x>', '420')]), ('returned-4xx', 'GET', '/flaky/odd-ret-444', [('/flaky/<x>', '444')]),
